@@ -9,6 +9,7 @@ import (
 
 	"sigs.k8s.io/kustomize/api/ifc"
 	"sigs.k8s.io/kustomize/api/resmap"
+	"sigs.k8s.io/kustomize/api/resource"
 )
 
 type plugin struct {
@@ -25,6 +26,7 @@ func (p *plugin) Config(
 
 // Transform appends hash to generated resources.
 func (p *plugin) Transform(m resmap.ResMap) error {
+	var renamed []*resource.Resource
 	for _, res := range m.Resources() {
 		if res.NeedHashSuffix() {
 			h, err := res.Hash(p.hasher)
@@ -33,6 +35,16 @@ func (p *plugin) Transform(m resmap.ResMap) error {
 			}
 			res.StorePreviousId()
 			res.SetName(fmt.Sprintf("%s-%s", res.GetName(), h))
+			renamed = append(renamed, res)
+		}
+	}
+	// The new names were not checked by Append: make sure none of them
+	// collides with the id of another resource of the map.
+	for _, res := range renamed {
+		matches := m.GetMatchingResourcesByCurrentId(res.CurId().Equals)
+		if len(matches) != 1 {
+			return fmt.Errorf(
+				"name hash suffix produces ID conflict: %+v", matches)
 		}
 	}
 	return nil
